@@ -27,6 +27,29 @@ Definition content (nonempty : bool) : list N := if nonempty then [1] else [].
 
 (** [replace] selects the copy strategy the implementation is compared with: writing through the
     destination path (create + truncate) or temporary file + rename over the destination name *)
+Definition model_outcome_v (replace noop is_move : bool) (k : dkind) (otherdev srcmissing nonempty : bool) : outcome :=
+  let c := content nonempty in
+  let s := scenario k otherdev srcmissing c in
+  let F := scenario_faults replace k in
+  let src := src_path in
+  let dst := dst_path k in
+  let (s', r) :=
+    match replace, noop, is_move with
+    | false, false, false => copy_file_f F s src dst
+    | false, false, true => move_file_f F s src dst
+    | true, false, false => copy_replace_f F s src dst tmp_path
+    | true, false, true => move_replace_f F s src dst tmp_path
+    | false, true, false => copy_file_n F s src dst
+    | false, true, true => move_file_n F s src dst
+    | true, true, false => copy_replace_n F s src dst tmp_path
+    | true, true, true => move_replace_n F s src dst tmp_path
+    end in
+  {| o_ok := match r with None => true | Some _ => false end;
+     o_src_present := present s' src_path;
+     o_src_orig := negb srcmissing && reads s' src_path c;
+     o_dst_orig := negb srcmissing && reads s' (dst_path k) c;
+     o_third_ok := reads s' third_path third_content |}.
+
 Definition model_outcome (replace is_move : bool) (k : dkind) (otherdev srcmissing nonempty : bool) : outcome :=
   let c := content nonempty in
   let s := scenario k otherdev srcmissing c in
@@ -57,8 +80,10 @@ Definition outcome_eqb (a b : outcome) : bool :=
   && Bool.eqb (o_src_orig a) (o_src_orig b) && Bool.eqb (o_dst_orig a) (o_dst_orig b)
   && Bool.eqb (o_third_ok a) (o_third_ok b).
 
-(** [model_eq]: agreement with the write-through model, [model_eq_replace]: with the replace model *)
-Record verdict := { spec : bool; model_eq : bool; model_eq_replace : bool }.
+(** [model_eq]: agreement with the write-through model, [model_eq_replace]: with the replace model (both refusing an
+    alias), [model_eq_noop] / [model_eq_replace_noop]: the same two with the no-op alias policy.
+    Variant numbers: 0 through+refuse, 1 replace+refuse, 2 through+noop, 3 replace+noop. *)
+Record verdict := { spec : bool; model_eq : bool; model_eq_replace : bool; model_eq_noop : bool; model_eq_replace_noop : bool }.
 
 Definition nz (x : N) : bool := negb (x =? 0).
 
@@ -69,16 +94,20 @@ Definition check_case (op kind otherdev srcmissing nonempty ok srcp srco dsto th
   let o := {| o_ok := nz ok; o_src_present := nz srcp; o_src_orig := nz srco; o_dst_orig := nz dsto; o_third_ok := nz third |} in
   {| spec := spec_ok (nz op) k (nz srcmissing) o;
      model_eq := outcome_eqb (model_outcome false (nz op) k (nz otherdev) (nz srcmissing) (nz nonempty)) o;
-     model_eq_replace := outcome_eqb (model_outcome true (nz op) k (nz otherdev) (nz srcmissing) (nz nonempty)) o |}.
+     model_eq_replace := outcome_eqb (model_outcome true (nz op) k (nz otherdev) (nz srcmissing) (nz nonempty)) o;
+     model_eq_noop := outcome_eqb (model_outcome_v false true (nz op) k (nz otherdev) (nz srcmissing) (nz nonempty)) o;
+     model_eq_replace_noop := outcome_eqb (model_outcome_v true true (nz op) k (nz otherdev) (nz srcmissing) (nz nonempty)) o |}.
 
 (** full verdict of one case against the strategy the run was found to follow (0 = through, 1 = replace) *)
-Definition verdict_ok_for (strategy : N) (v : verdict) : bool :=
-  spec v && (if nz strategy then model_eq_replace v else model_eq v).
+Definition matches (variant : N) (v : verdict) : bool :=
+  if variant =? 0 then model_eq v else if variant =? 1 then model_eq_replace v
+  else if variant =? 2 then model_eq_noop v else model_eq_replace_noop v.
+Definition verdict_ok_for (variant : N) (v : verdict) : bool := spec v && matches variant v.
 Definition verdict_ok (v : verdict) : bool := verdict_ok_for 0 v.
 
 (** the outcome the model computes, as numbers (for the driver's messages) *)
-Definition model_fields_for (strategy op kind otherdev srcmissing nonempty : N) : list bool :=
-  let o := model_outcome (nz strategy) (nz op) (kind_of_N kind) (nz otherdev) (nz srcmissing) (nz nonempty) in
+Definition model_fields_for (variant op kind otherdev srcmissing nonempty : N) : list bool :=
+  let o := model_outcome_v ((variant =? 1) || (variant =? 3)) (2 <=? variant) (nz op) (kind_of_N kind) (nz otherdev) (nz srcmissing) (nz nonempty) in
   [o_ok o; o_src_present o; o_src_orig o; o_dst_orig o; o_third_ok o].
 Definition model_fields (op kind otherdev srcmissing nonempty : N) : list bool :=
   let o := model_outcome false (nz op) (kind_of_N kind) (nz otherdev) (nz srcmissing) (nz nonempty) in
